@@ -32,31 +32,47 @@ Proof.
 Qed.
 Print Assumptions C17_sniff_unterminated_comment_inert.
 
-(* The six removed elements <n ...> body </n ws> (n in lower case as listed; body begins with a non-word byte or is
-   empty).  PARTIAL: proved for bodies that contain no end-tag opener at all (no_lt_slash).  The remaining gap is exactly:
-   bodies with another end-tag opener before the closing tag (the scanner then ends the element at the first
-   same-name end tag, as the regex does), upper/mixed-case spellings of the element name, and elements still open at
-   the end of the window - all three are covered by the differential run of Sniff.strip against the real regex only. *)
-Theorem C17_sniff_removed_element_inert_partial :
-  forall (compat : list N -> list N -> bool) (pre n body ws post : list N),
+(* The six removed elements, full strength:  <NAME ...> body </NAME ws>  with the element name in ANY letter case at
+   both ends (nm, nm2 lower-case to one of the six names), body beginning with a non-word byte or empty, ws white space,
+   and no end tag of that element beginning inside body (no_end: the first same-name end tag is the closing one; other
+   end tags, angle brackets, comment openers, meta declarations ... are all allowed in body). *)
+Theorem C17_sniff_removed_element_inert :
+  forall (compat : list N -> list N -> bool) (pre n nm nm2 body ws post : list N),
     plain pre = true -> ends62 pre = true ->
-    In n NAMES -> body_start_ok body = true -> no_lt_slash body = true -> forallb is_sp ws = true ->
-    Nat.le (List.length (pre ++ (60 :: n) ++ body ++ (60 :: 47 :: n) ++ ws ++ 62 :: post)) WINDOW ->
+    In n NAMES -> map lc_byte nm = n -> map lc_byte nm2 = n ->
+    body_start_ok body = true -> no_end n body = true -> forallb is_sp ws = true ->
+    Nat.le (List.length (pre ++ (60 :: nm) ++ body ++ (60 :: 47 :: nm2) ++ ws ++ 62 :: post)) WINDOW ->
     Nat.le (List.length (pre ++ post)) WINDOW ->
-    fst (choose compat (pre ++ (60 :: n) ++ body ++ (60 :: 47 :: n) ++ ws ++ 62 :: post)) = fst (choose compat (pre ++ post)).
+    fst (choose compat (pre ++ (60 :: nm) ++ body ++ (60 :: 47 :: nm2) ++ ws ++ 62 :: post)) = fst (choose compat (pre ++ post)).
 Proof.
-  intros compat pre n body ws post Hp He Hn Hb Hs Hw L1 L2.
-  exact (segment_inert compat pre _ _ He (strip_element_inert pre n body ws post Hp He Hn Hb Hs Hw) L1 L2).
+  intros compat pre n nm nm2 body ws post Hp He Hn Hm Hm2 Hb Hs Hw L1 L2.
+  exact (segment_inert compat pre _ _ He (strip_element_inert_full pre n nm nm2 body ws post Hp He Hn Hm Hm2 Hb Hs Hw) L1 L2).
 Qed.
-Print Assumptions C17_sniff_removed_element_inert_partial.
+Print Assumptions C17_sniff_removed_element_inert.
+
+(* a removed element that is still open at the end of the window (no end tag of it anywhere in body) decides nothing *)
+Theorem C17_sniff_unterminated_element_inert :
+  forall (compat : list N -> list N -> bool) (pre n nm body : list N),
+    plain pre = true -> ends62 pre = true ->
+    In n NAMES -> map lc_byte nm = n -> body_start_ok body = true -> never_ended n body = true ->
+    Nat.le (List.length (pre ++ (60 :: nm) ++ body)) WINDOW -> Nat.le (List.length (pre ++ [])) WINDOW ->
+    fst (choose compat (pre ++ (60 :: nm) ++ body)) = fst (choose compat (pre ++ [])).
+Proof.
+  intros compat pre n nm body Hp He Hn Hm Hb Hs L1 L2.
+  apply (segment_inert compat pre _ _ He); [|exact L1|exact L2].
+  rewrite app_nil_r. exact (strip_open_element_inert pre n nm body Hp He Hn Hm Hb Hs).
+Qed.
+Print Assumptions C17_sniff_unterminated_element_inert.
 
 (* the hypotheses are satisfiable, and the theorems apply to the inputs that refuted the pre-fix code *)
 Example C17_sniff_hypotheses_nonvacuous :
   let pre := s "<html><head><title>t</title>" in
   let c := s " <meta charset=""utf-16""> -- > - " in
-  let body := s ">var h='<meta charset=cp037>'; if (a<b) {}" in
+  let body := s ">var h='<meta charset=cp037>'; if (a<b) {} document.write('</b></scr'+'ipt x></p>'); <!-- </ script" in
   plain pre = true /\ ends62 pre = true /\ no_close c = true /\ never_closed c = true /\
-  In (s "script") NAMES /\ body_start_ok body = true /\ no_lt_slash body = true /\ forallb is_sp [32; 10] = true.
+  In (s "script") NAMES /\ map lc_byte (s "ScRiPt") = s "script" /\ map lc_byte (s "SCRIPT") = s "script" /\
+  body_start_ok body = true /\ no_end (s "script") body = true /\ never_ended (s "script") body = true /\
+  forallb is_sp [32; 10] = true.
 Proof. vm_compute. repeat split; try reflexivity. left. reflexivity. Qed.
 Print Assumptions C17_sniff_hypotheses_nonvacuous.
 
